@@ -14,7 +14,7 @@
 //          (fresh directory) in which event i is executed by a forked child that _exit()s at the n-th
 //          hit; the parent checks the state left behind, re-opens and continues the history.
 //
-// case index -> (configuration, history):  cfg = idx % 21,  h = ((idx / 21) * 1000003) % N,
+// case index -> (configuration, history):  cfg = idx % 21,  h = ((idx / 21) * 1000003 + seed * 7919) % N,
 //   N = 4 + 4^2 + .. + 4^maxlen, histories ordered by length, then lexicographically (S < M < L < R).
 //
 // message texts: serial k (1-based, 'A'+k-1) + filler + ';' - short 2, mid 4, long 7 characters, i.e.
@@ -46,6 +46,7 @@ using celma::log::detail::LogMsg;
 static vh::Progress prog;
 static vh::Out out;
 static bool verbose = false;
+static bool strictReopen = true;   // --strict_reopen 0: abstain on Counted's documented roll at every re-open
 
 // ------------------------------------------------------------------ hook (crash points)
 
@@ -406,9 +407,13 @@ struct Run
       return std::equal(s.begin(), s.end(), of.end() - s.size());
    }
 
+   /// a roll drops the oldest generation - and only when all configured generations are in use, i.e.
+   /// when generation max_gen-2 exists and takes its place
    unsigned allowedDrop(bool roll) const
    {
-      return roll ? nLines(gen(prev, cfg.gens - 1)) : 0;
+      if (!roll) return 0;
+      if (cfg.gens == 1) return nLines(gen(prev, 0));
+      return prev.find(cfg.gens - 2) != prev.end() ? nLines(gen(prev, cfg.gens - 1)) : 0;
    }
 
    bool fits(const std::string& text) const
@@ -451,8 +456,10 @@ struct Run
       if (roll && fit)
          viol("rolled-too-early", "a new generation was started for '" + text + "' although it fits into generation 0 (" +
               std::to_string(cfg.counted ? nLines(p0) : p0.size()) + " of " + std::to_string(cfg.limit) + " used)", cur);
+      const bool endOk = nviol == before || (roll && fit);
       pseq.push_back(newIdx);
-      if (isSuffix(cseq, pseq))
+      if (!endOk) {}   // already reported under a more specific name
+      else if (isSuffix(cseq, pseq))
       {
          const size_t dropped = pseq.size() - cseq.size();
          if (dropped > allowedDrop(roll))
@@ -499,12 +506,35 @@ struct Run
          else if (dropped)
          {
             out.stat("oldest_generation_dropped");
-            if (cfg.gens == 1) out.stat("abst_single_generation_discarded_on_open");
+            // a full single generation is discarded by the re-open instead of by the next message
+            const std::string& p0 = gen(prev, 0);
+            if (cfg.gens == 1 && (cfg.counted ? nLines(p0) >= cfg.limit : p0.size() >= cfg.limit))
+               out.stat("abst_full_single_generation_discarded_on_open");
          }
       }
       else if (nviol == before)
          viol("lost-after-reopen", "the retained messages are not a suffix of the messages retained before", cur);
-      if (roll && allowed) out.stat("rolls_on_open");
+      if (roll && allowed)
+      {
+         out.stat("rolls_on_open");
+         // Counted::openCheck() is documented to use a file only when "it is empty": every restart starts a new
+         // generation although the next message would fit (and with a single generation discards everything).
+         // The property says otherwise -> reported under its own key (a design-level finding); the run goes on.
+         if (cfg.counted && nLines(gen(prev, 0)) < cfg.limit)
+         {
+            if (strictReopen)
+            {
+               out.stat("counted_new_generation_on_reopen");
+               out.viol("counted|new-generation-on-reopen",
+                        cfg.str() + " history=" + histStr(hist) + " step=" + std::to_string(step) + " (" + what +
+                           "): a new generation was started on re-open although generation 0 held " +
+                           std::to_string(nLines(gen(prev, 0))) + " of " + std::to_string(cfg.limit) + " entries" +
+                           (cfg.gens == 1 ? "; with a single generation all retained messages were discarded" : "") +
+                           "; before: " + stateStr(prev) + "after: " + stateStr(cur));
+            }
+            else out.stat("abst_counted_rolled_nonfull_file_on_open");
+         }
+      }
       if (!initial && cur.find(0) == cur.end() && nviol == before) out.stat("abst_no_current_file_after_open");
       if (norm(cur) == norm(prev) || (allowed && norm(cur) == norm(rolled(prev, cfg.gens)))) out.stat("exact_state_matches");
       else if (nviol == before) out.stat("abst_unmodelled_state");
@@ -726,6 +756,7 @@ static void runCrash(uint64_t idx, const Cfg& cfg, const std::vector<Ev>& hist, 
       }
       else if (pid == 0)
       {
+         g_root[0] = 0;   // the scratch directory belongs to the parent (see onAbort)
          g_hits = 0;
          g_crashAt = n;
          try { r.rawEvent(ev, text); }
@@ -807,6 +838,7 @@ int main(int argc, char** argv)
    vh::Args a = vh::parse_args(argc, argv);
    prog.open(a.progress);
    verbose = a.getu("verbose", 0) != 0;
+   strictReopen = a.getu("strict_reopen", 1) != 0;
    const bool crash = a.mode == "crash";
    if (a.mode != "hist" && !crash)
    {
@@ -824,14 +856,13 @@ int main(int argc, char** argv)
    atexit(removeRoot);
    signal(SIGABRT, onAbort);
    signal(SIGTERM, onAbort);
-   signal(SIGSEGV, onAbort);
 
    out.maxSamples = 3;
    for (uint64_t idx = a.start; idx < a.start + a.count && idx < total; ++idx)
    {
       out.curIdx = idx;
       const Cfg cfg = cfgOf(static_cast<unsigned>(idx % NCFG));
-      const uint64_t h = ((idx / NCFG) * 1000003ULL) % N;
+      const uint64_t h = ((idx / NCFG) * 1000003ULL + (a.seed % N) * 7919ULL) % N;   // a bijection for every seed
       const std::vector<Ev> hist = historyOf(h, maxlen);
       prog.set(idx, "case cfg=" + cfg.str() + " hist=" + histStr(hist));
       out.stat("cases");
